@@ -583,9 +583,6 @@ def gen_anyevery(rng, lib=""):
 def gen_if(rng, lib=""):
     a, b = rnd_pair(rng)
     c = rnd_int(rng)
-    if lib == "33:":
-        # SRFI 33: (bitwise-merge mask i0 i1): mask bit 0 -> i0, 1 -> i1
-        return mk("33:bitwise-merge", "(s33:bitwise-merge a b c)", (~a & b) | (a & c), a, b, c, tr=lambda t: t.if_(a, c, b))
     return mk("bitwise-if", "(bitwise-if a b c)", (a & b) | (~a & c), a, b, c, tr=lambda t: t.if_(a, b, c))
 
 
@@ -747,13 +744,15 @@ def gen_srfi33_field(rng, lib="33:"):
 GENS_151 = [(gen_binary, 22), (gen_nary, 6), (gen_unary, 12), (gen_shift, 14), (gen_bitset, 7), (gen_copybit, 4),
             (gen_bitswap, 3), (gen_anyevery, 4), (gen_if, 4), (gen_field, 8), (gen_replace, 4), (gen_rotate, 3),
             (gen_reverse, 2), (gen_bits, 4), (gen_fold, 3)]
-# alias libraries: (srfi 142) re-exports (srfi 151) (bitwise-if excluded: chibi swaps its last two arguments on
-# purpose and the two documents are not on disk to decide the order); (srfi 33) has its own names / argument orders
+# alias libraries: (srfi 142) re-exports (srfi 151); (srfi 33) has its own names / argument orders.  Not checked:
+# (srfi 142) bitwise-if and (srfi 33) bitwise-merge -- chibi deliberately swaps the last two arguments relative to
+# SRFI 151's bitwise-if, its own lib/srfi/33/test.sld expects the unswapped order (and fails on the unchanged tree),
+# and neither SRFI document is on disk to decide which is specified.
 GENS_142 = [(gen_binary, 4), (gen_nary, 1), (gen_unary, 3), (gen_shift, 3), (gen_bitset, 2), (gen_copybit, 1),
             (gen_bitswap, 1), (gen_anyevery, 1), (gen_field, 2), (gen_replace, 1), (gen_rotate, 1), (gen_reverse, 1),
             (gen_bits, 2), (gen_fold, 1)]
 GENS_33 = [(gen_binary, 4), (gen_nary, 1), (gen_unary, 3), (gen_shift, 3), (gen_bitset, 2), (gen_anyevery, 2),
-           (gen_if, 2), (gen_srfi33_field, 6)]
+           (gen_srfi33_field, 6)]
 
 
 def _pick(rng, table):
@@ -1007,7 +1006,8 @@ def check(rep, tier, seed, variant="hooks", n=None, env_extra=None):
                 "shift direction x bits-shifted-out-zero, index/field position relative to the stored words, length relation")
     rep.assumptions = ["Python integers are infinite two's complement", "the observation reader (vf/sexpr.py) is correct",
                        "chibi's `write` of exact integers is used to observe results",
-                       "(srfi 142) bitwise-if is not checked (argument order of the withdrawn SRFI not decidable from the tree)"]
+                       "(srfi 142) bitwise-if and (srfi 33) bitwise-merge are not checked (argument order not decidable from the tree: "
+                       "chibi swaps the last two arguments relative to SRFI 151, its own (srfi 33 test) expects otherwise)"]
 
 
 def gc_workload(rng, n):
